@@ -304,6 +304,33 @@ REVIEWED_LOOPS = {
 }
 
 
+def w_variable_tokens_inert(ctx):
+    """premise (iii) of the variable-substitution loop: a substituted Variable token matches no name-token list again.
+    Name tokens may be field patterns, so TokenType::field_compare must answer false for a Variable token on every path,
+    and no configured type group may list VARIABLE. -> (ok, message)"""
+    b = ctx.facts.one(r'^types::TokenType::field_compare$')
+    adt = ctx.facts.adts.get('types::TokenType')
+    vd = [v['discr'] for v in adt['variants'] if v['name'] == 'Variable']
+    if not vd:
+        raise AnchorLost('TokenType::Variable not found')
+    n = 0
+    for a, conds in alternatives(b, b.ret_expr()):
+        pinned = False
+        for d, v in conds:
+            if render(d) == 'discr(self)' and not isinstance(v, tuple) and set(v) == set(vd):
+                pinned = True
+        if not pinned:
+            continue
+        n += 1
+        a2 = strip(a)
+        if not (a2[0] == 'const' and a2[2] in (False, 0)):
+            return False, 'TokenType::field_compare can answer %s for a Variable token: a substituted variable matches its own (field-pattern) name again and is replaced by itself forever' % render(a2)[:80]
+    for gname, members in sorted(ctx.config.j.get('type_group', {}).items()):
+        if any(str(m).upper() == 'VARIABLE' for m in members):
+            return False, 'type group %s lists VARIABLE: a {%s:..} name pattern matches a substituted variable token' % (gname, gname)
+    return True, 'a Variable token matches no field pattern (%d Variable-pinned results of field_compare are false)' % n
+
+
 def t1_loops(ctx):
     """T1 every natural loop in evaluation-reachable bodies has a checked ranking template"""
     ctx.rule('T1', 'loops: ranking templates', floor=60)
@@ -326,7 +353,10 @@ def t1_loops(ctx):
                 ctx.ok('T1', '%s loop@bb%d: %s (%s)' % (fn_key(p), L['head'], tpl, detail), tpl, site=site, sample=False)
                 continue
             if p in FLAG_LOOPS and flag_loop_ok(ctx, b, L, FLAG_LOOPS[p][0]):
-                if not ok2:
+                ok3, msg3 = w_variable_tokens_inert(ctx) if p == 'variable::update_token_variables' else (True, '')
+                if not ok3:
+                    ctx.finding('T1', '%s/rewrite-loop/variable-token-matches-field' % fn_key(p), 'variable substitution loop: %s' % msg3, site=site)
+                elif not ok2:
                     ctx.finding('T1', '%s/rewrite-loop/one-token-pattern' % fn_key(p), 'rewrite loop of %s: %s - a pattern with fewer than two tokens replaces one token by one and the loop never shrinks its measure (%s)' % (fn_key(p), msg2, FLAG_LOOPS[p][1]), site=site)
                 else:
                     ctx.ok('T1', '%s rewrite loop: flag set only behind remove+insert; %s' % (fn_key(p), msg2), 'L-flag', site=site)
